@@ -204,6 +204,12 @@ func (fr *Frame) doCallWith(c *ssa.CallCommon, instr ssa.Instruction, fnVal Val,
 		res, npc = fr.invokeCall(c, fnVal, args, st, pc, pos, rt, name)
 	default:
 		// dynamic function value
+		if strings.HasSuffix(name, ".Exit") {
+			// process exit (Store.Exit = os.Exit in production): does not return, whatever contract the field has
+			vc.UsedAssumed["dyn "+name+" does not return"] = true
+			res, npc = vc.freshResult("dyn", rt), False
+			break
+		}
 		if fc := e.contractFor(name); fc != nil {
 			res, npc = fr.applyContract(fc, nil, args, nil, st, pc, pos, rt, name)
 			vc.UsedAssumed["contract on function-valued field "+name] = true
